@@ -6,6 +6,7 @@
    (mb_data = offset off, mb_size = n) into it.  Definitions only. *)
 From Coq Require Import ZArith List Bool.
 Import ListNotations.
+From Cffi Require Import C19.Types.      (* condition language of the regenerated fast-path test *)
 Open Scope Z_scope.
 
 Definition SSIZE_MAX : Z := 2 ^ 63 - 1.
@@ -210,6 +211,31 @@ Definition from_buffer_length (t : fbtype) (is_unicode has_buffer : bool) (bufle
          | FNotPtrArray => Err TypeError
          end
   end.
+
+(* the code of the open-array branch, with its fast-path test `fast` (regenerated from the source into
+   C19/Gen.v): if (fast) arraylength = view->len; else if (ct_size > 0) view->len / ct_size; else
+   ZeroDivisionError *)
+Definition from_buffer_open_code (fast : cond) (it : item) (buflen : Z) : res Z :=
+  if cond_holds fast it then Ok buflen
+  else if 0 <? it_size it then Ok (Z.quot buflen (it_size it))
+  else Err ZeroDivisionError.
+
+(* the item types the backend can build (flags as set by new_primitive_type / new_pointer_type / ...;
+   aggregates and arrays for a range of sizes, 0 included) *)
+Definition prim_items : list item :=
+  [mk_item 1 [F_CHAR]; mk_item 2 [F_CHAR]; mk_item 4 [F_CHAR];
+   mk_item 1 [F_SIGNED]; mk_item 2 [F_SIGNED]; mk_item 4 [F_SIGNED]; mk_item 8 [F_SIGNED];
+   mk_item 1 [F_UNSIGNED]; mk_item 2 [F_UNSIGNED]; mk_item 4 [F_UNSIGNED]; mk_item 8 [F_UNSIGNED];
+   mk_item 1 [F_UNSIGNED; F_BOOL];
+   mk_item 4 [F_FLOAT]; mk_item 8 [F_FLOAT]; mk_item 16 [F_FLOAT; F_LONGDOUBLE];
+   mk_item 8 [F_COMPLEX]; mk_item 16 [F_COMPLEX];
+   mk_item 4 [F_SIGNED; F_ENUM]; mk_item 4 [F_UNSIGNED; F_ENUM]; mk_item 8 [F_SIGNED; F_ENUM];
+   mk_item 8 [F_UNSIGNED; F_ENUM]; mk_item 8 [F_POINTER]; mk_item 8 [F_FUNCTIONPTR]].
+Definition aggregate_sizes : list Z := [0; 1; 2; 3; 4; 5; 6; 7; 8; 12; 16; 24; 32; 64].
+Definition all_items : list item :=
+  prim_items ++ map (fun s => mk_item s [F_STRUCT]) aggregate_sizes
+             ++ map (fun s => mk_item s [F_UNION]) aggregate_sizes
+             ++ map (fun s => mk_item s [F_ARRAY]) aggregate_sizes.
 
 (* ---------------------------------------------------------------- b_memmove :7333 *)
 (* dest and src are offsets into one memory (they may overlap); C's memmove copies as if through a
